@@ -93,11 +93,13 @@ def guard (w : AW) (pw : Pw) : Option E :=
 
 def step (s : St) : Op → St × Option E
   | .create id typ seed label n encrypt pw temp =>
-    -- creator: wallet-level validation, then the service's fingerprint and name checks
+    -- creator: wallet-level validation (a password without `Encrypt` is dropped by convertOptions),
+    -- then the service's fingerprint and name checks
     if label = "" then (s, some (.other "ErrMissingLabel"))
     else if encrypt ∧ temp then (s, some .encTemp)
-    else if encrypt ∧ pw = 0 then (s, some .missingPassword)
-    else if ¬ encrypt ∧ pw ≠ 0 then (s, some (.other "ErrMissingEncrypt"))
+    else if encrypt ∧ pw = 0 then
+      -- bip44wallet.NewWallet returns an ad-hoc error here, the other creators wallet.ErrMissingPassword
+      (s, some (if typ = .bip44 then .other "missing password for encrypting wallet" else .missingPassword))
     else
       let w : AW := ⟨typ, label, seed, if encrypt then some pw else none, temp,
                      if typ = .collection then 0 else (if n = 0 then 1 else n), if typ = .bip44 then 1 else 0⟩
